@@ -18,7 +18,9 @@ Local Open Scope Z_scope.
 
 Record msg := {
   m_from : addr; m_nonce : Z; m_gas : Z;
-  m_price : Z;            (* wei per gas (legacy gas price = effective price) *)
+  (* the three tx types in one shape: base fee of the block, maxPriorityFeePerGas, maxFeePerGas (wei
+     per gas); a legacy / access-list tx has tip = cap = its gas price *)
+  m_base : Z; m_tip : Z; m_cap : Z;
   m_value : Z;            (* wei *)
   (* what core.IntrinsicGas looks at *)
   m_create : bool; m_nz : Z; m_z : Z; m_al_addrs : Z; m_al_keys : Z;
@@ -31,20 +33,38 @@ Record msg := {
 Definition intrinsic (m : msg) : Z :=
   21000 + (if m_create m then 32000 else 0) + 16 * m_nz m + 4 * m_z m + 2400 * m_al_addrs m + 1900 * m_al_keys m.
 
-Definition fee (m : msg) : Z := m_gas m * m_price m.                       (* wei *)
-Definition leftover (m : msg) : Z := (m_gas m - m_used m) * m_price m.    (* wei *)
+(** TxData.EffectiveGasPriceWeiPerGas: max(baseFee, min(tip + baseFee, feeCap)) — what VerifyFee
+    deducts and RefundGas refunds at; go-ethereum's msg.gasPrice = min(tip + baseFee, feeCap) *)
+Definition nib_price (m : msg) : Z := Z.max (m_base m) (Z.min (m_tip m + m_base m) (m_cap m)).
+Definition geth_price (m : msg) : Z := Z.min (m_tip m + m_base m) (m_cap m).
+
+Definition fee (m : msg) : Z := m_gas m * nib_price m.                       (* wei *)
+Definition leftover (m : msg) : Z := (m_gas m - m_used m) * nib_price m.    (* wei *)
+Definition cap_cost (m : msg) : Z := m_gas m * m_cap m + m_value m.         (* TxData.Cost() *)
+Definition eff_cost (m : msg) : Z := fee m + m_value m.                      (* TxData.EffectiveCostWei(baseFee) *)
+Definition rfee (m : msg) : Z := m_gas m * geth_price m.
+Definition rleftover (m : msg) : Z := (m_gas m - m_used m) * geth_price m.
 
 Definition kacct0 : kacct := {| ka_bal := 0; ka_nonce := 0; ka_code := 0 |}.
 Definition k_get (k : keeper) (a : addr) : kacct := match k_acct k a with Some x => x | None => kacct0 end.
 
-(** app/evmante on the message's branch: AnteDecVerifyEthAcc (sender is an EOA, balance >= fee +
-    value; creates the account), CanTransferDecorator (subsumed), AnteDecEthGasConsume (the fee
-    gas*price leaves the sender; in DeliverTx no intrinsic-gas check), AnteDecEthIncrementSenderSequence
-    (tx nonce = account sequence, then +1).  The fee collector is outside the address universe. *)
-Definition ante (k : keeper) (m : msg) : option keeper :=
+(** app/evmante on the message's branch: EthValidateBasic (TxData.Validate: tip above fee cap),
+    AnteDecVerifyEthAcc (sender is an EOA; keeper.CheckSenderBalance: balance >= what?  [cap_check]
+    = it compares with TxData.Cost() = gas*feeCap + value — re-extracted from the source on every
+    check — otherwise with the effective cost gas*effectivePrice + value), CanTransferDecorator (value
+    subsumed; its "fee cap below the base fee" test: [floor_check] = it compares the FEE CAP with the
+    base fee — re-extracted from the source; when it compares max(baseFee, feeCap) instead it never
+    fires and a price below the base fee is ADMITTED and charged at the base fee — go-ethereum rejects
+    it, see [admission_below_base_fee_refuted]), AnteDecEthGasConsume (the effective fee leaves the sender;
+    in DeliverTx no intrinsic-gas check), AnteDecEthIncrementSenderSequence (tx nonce = account
+    sequence, then +1).  The fee collector is outside the address universe. *)
+Definition ante (cap_check floor_check : bool) (k : keeper) (m : msg) : option keeper :=
   let x := k_get k (m_from m) in
   if negb (ka_code x =? 0) then None
-  else if to_wei (ka_bal x) <? fee m + m_value m then None
+  else if m_cap m <? m_tip m then None
+  else if floor_check && (m_cap m <? m_base m) then None
+  else if to_wei (ka_bal x) <? (if cap_check then cap_cost m else eff_cost m) then None
+  else if to_wei (ka_bal x) <? fee m then None        (* AnteDecEthGasConsume.deductFee: the bank refuses *)
   else if negb (ka_nonce x =? m_nonce m) then None
   else Some (kset_acct k (m_from m)
                (Some {| ka_bal := ka_bal x - to_native (fee m); ka_nonce := ka_nonce x + 1; ka_code := ka_code x |})).
@@ -76,8 +96,8 @@ Inductive mres := MRejected | MExecuted (rets : list ret).
                      the calls; Commit()           writes to the ctx the StateDB was CREATED on
         RefundGas on branch
       no error: branch written back to the block state; error: branch dropped *)
-Definition deliver (clears_on_error : bool) (st : mstate) (m : msg) : mstate * mres :=
-  match ante (ms_blk st) m with
+Definition deliver (clears_on_error cap_check floor_check : bool) (st : mstate) (m : msg) : mstate * mres :=
+  match ante cap_check floor_check (ms_blk st) m with
   | None => (st, MRejected)
   | Some branch =>
     let f := match ms_ptr st with Some f => f | None => new_full branch end in
@@ -91,36 +111,37 @@ Definition deliver (clears_on_error : bool) (st : mstate) (m : msg) : mstate * m
       ({| ms_blk := refund_gas branch' m; ms_ptr := None |}, MExecuted rets)
   end.
 
-Fixpoint deliver_hist (c : bool) (st : mstate) (ms : list msg) : mstate * list mres :=
+Fixpoint deliver_hist (c b f : bool) (st : mstate) (ms : list msg) : mstate * list mres :=
   match ms with
   | [] => (st, [])
   | m :: rest =>
-    let '(st1, r) := deliver c st m in
-    let '(st2, rs) := deliver_hist c st1 rest in (st2, r :: rs)
+    let '(st1, r) := deliver c b f st m in
+    let '(st2, rs) := deliver_hist c b f st1 rest in (st2, r :: rs)
   end.
 
 (** ** what delivery should be: no pointer, no branches — a rejected message is a no-op, an executed
     one is ante; one StateDB transaction ([run_tx]); refund *)
-Definition spec_deliver (k : keeper) (m : msg) : keeper * mres :=
-  match ante k m with
+Definition spec_deliver (f : bool) (k : keeper) (m : msg) : keeper * mres :=
+  match ante true f k m with
   | None => (k, MRejected)
   | Some k1 =>
     if m_gas m <? intrinsic m then (k, MRejected)
     else let '(k2, rets) := run_tx k1 (m_ops m) in (refund_gas k2 m, MExecuted rets)
   end.
 
-Fixpoint spec_hist (k : keeper) (ms : list msg) : keeper * list mres :=
+Fixpoint spec_hist (f : bool) (k : keeper) (ms : list msg) : keeper * list mres :=
   match ms with
   | [] => (k, [])
   | m :: rest =>
-    let '(k1, r) := spec_deliver k m in
-    let '(k2, rs) := spec_hist k1 rest in (k2, r :: rs)
+    let '(k1, r) := spec_deliver f k m in
+    let '(k2, rs) := spec_hist f k1 rest in (k2, r :: rs)
   end.
 
 (** ** the reference: go-ethereum's state transition (core/state_transition.go) on the reference
     world (balances in wei).  preCheck: nonce equal, sender is an EOA, balance >= gas*price + value
     (buyGas), then gas is bought; gas < intrinsic gas: the message is INVALID — no effect at all;
-    execution = one reference transaction; refundGas.  (Nibiru's ante bumps the sequence before
+    execution = one reference transaction; refundGas.  London preCheck: fee cap below tip, fee cap
+    below base fee; buyGas checks the balance against gas*feeCap + value and takes gas*gasPrice.  (Nibiru's ante bumps the sequence before
     ApplyEvmMsg resets the nonce through the StateDB; the reference bumps it at the same place so
     that both run the same calls from the same state.) *)
 Definition wacct0 : wacct := {| wa_bal := 0; wa_nonce := 0; wa_code := 0 |}.
@@ -131,16 +152,18 @@ Definition wset_acct (w : world) (a : addr) (x : option wacct) : world :=
 Definition ref_buy (w : world) (m : msg) : option world :=
   let x := w_get w (m_from m) in
   if negb (wa_code x =? 0) then None
-  else if wa_bal x <? fee m + m_value m then None
+  else if m_cap m <? m_tip m then None
+  else if m_cap m <? m_base m then None
+  else if wa_bal x <? cap_cost m then None
   else if negb (wa_nonce x =? m_nonce m) then None
   else Some (wset_acct w (m_from m)
-               (Some {| wa_bal := wa_bal x - fee m; wa_nonce := wa_nonce x + 1; wa_code := wa_code x |})).
+               (Some {| wa_bal := wa_bal x - rfee m; wa_nonce := wa_nonce x + 1; wa_code := wa_code x |})).
 
 Definition ref_refund (w : world) (m : msg) : world :=
-  if to_native (leftover m) =? 0 then w
+  if to_native (rleftover m) =? 0 then w
   else let x := w_get w (m_from m) in
        wset_acct w (m_from m)
-         (Some {| wa_bal := wa_bal x + leftover m; wa_nonce := wa_nonce x; wa_code := wa_code x |}).
+         (Some {| wa_bal := wa_bal x + rleftover m; wa_nonce := wa_nonce x; wa_code := wa_code x |}).
 
 Definition ref_deliver (w : world) (m : msg) : world * mres :=
   match ref_buy w m with
@@ -164,11 +187,26 @@ Definition ex_k0 : keeper :=
   kset_code (kset_acct (kset_acct empty_keeper 1 (Some {| ka_bal := 1000000; ka_nonce := 0; ka_code := 0 |}))
                        2 (Some {| ka_bal := 10; ka_nonce := 1; ka_code := 7 |})) 7.
 Definition ex_m_low : msg :=
-  {| m_from := 1; m_nonce := 0; m_gas := 20000; m_price := WEI; m_value := 0;
+  {| m_from := 1; m_nonce := 0; m_gas := 20000; m_base := WEI; m_tip := WEI; m_cap := WEI; m_value := 0;
      m_create := false; m_nz := 0; m_z := 0; m_al_addrs := 0; m_al_keys := 0; m_ops := []; m_used := 0 |}.
 Definition ex_m_call : msg :=
-  {| m_from := 1; m_nonce := 0; m_gas := 100000; m_price := WEI; m_value := 0;
+  {| m_from := 1; m_nonce := 0; m_gas := 100000; m_base := WEI; m_tip := WEI; m_cap := WEI; m_value := 0;
      m_create := false; m_nz := 0; m_z := 0; m_al_addrs := 0; m_al_keys := 0;
      m_ops := [OPrepareAL 1 (Some 2) [] []; OSetNonce 1 0; OSnapshot; OGetState 2 0; OSetState 2 0 5; OAddLog 9; OSetNonce 1 1];
      m_used := 43000 |}.
 Definition ex_msgs : list msg := [ex_m_low; ex_m_call].
+
+(** a dynamic-fee transfer (fee cap 10 unibi, no tip, gas 21000, value 50000 unibi) from an EOA holding
+    100000 unibi: it can pay the effective cost 21000 + 50000 but not gas*feeCap + value = 260000 *)
+Definition ex_k_poor : keeper :=
+  kset_acct empty_keeper 1 (Some {| ka_bal := 100000; ka_nonce := 0; ka_code := 0 |}).
+Definition ex_m_feecap : msg :=
+  {| m_from := 1; m_nonce := 0; m_gas := 21000; m_base := WEI; m_tip := 0; m_cap := 10 * WEI; m_value := 50000 * WEI;
+     m_create := false; m_nz := 0; m_z := 0; m_al_addrs := 0; m_al_keys := 0;
+     m_ops := [OPrepareAL 1 (Some 3) [] []; OSetNonce 1 0; OSnapshot; OSubBalance 1 (50000 * WEI); OAddBalance 3 (50000 * WEI); OSetNonce 1 1];
+     m_used := 21000 |}.
+
+(** a legacy call with gas price 0 (< base fee) from the rich EOA of [ex_k0] *)
+Definition ex_m_lowprice : msg :=
+  {| m_from := 1; m_nonce := 0; m_gas := 100000; m_base := WEI; m_tip := 0; m_cap := 0; m_value := 0;
+     m_create := false; m_nz := 0; m_z := 0; m_al_addrs := 0; m_al_keys := 0; m_ops := []; m_used := 21000 |}.
